@@ -14,7 +14,8 @@ BigTextClause(ev) ==
   LET h == ev.head  e == ev.endian  n == ev.n
       half == n \div 2  odd == n - half          \* entries 0,2,4,.. carry "abc" (odd many when n is odd), the others "abcdefg"
       ds == IF ev.fmt = "unicode" THEN 4 + odd * 8 + half * 16 ELSE odd * 4 + half * 8
-  IN IF Rd32(h, 4, e) # ds \/ Rd32(h, 8, e) # 0 \/ Rd32(h, 12, e) # n \/ Rd32(h, 0, e) # ev.len THEN 1
+  \* (the data size is at least what the messages need and a multiple of 4: the statement does not fix the padding)
+  IN IF Rd32(h, 4, e) < ds \/ Rd32(h, 4, e) % 4 # 0 \/ Rd32(h, 8, e) # 0 \/ Rd32(h, 12, e) # n \/ Rd32(h, 0, e) # ev.len THEN 1
      ELSE IF ~ev.reparsed_equal THEN 3
      ELSE 0
 
